@@ -17,18 +17,20 @@ VARIABLES l, c,        \* next event; configuration of the current run
           bad
 avars == <<l, c, k, last, u, prev, cur, bad>>
 
-TInit == l = 1 /\ c = [kind |-> "none"] /\ k = 0 /\ last = 0 /\ u = 0 /\ prev = <<>> /\ cur = <<>> /\ bad = ""
+TInit == l = 1 /\ c = [kind |-> "none"] /\ k = 0 /\ last = <<0, 0>> /\ u = 0 /\ prev = <<>> /\ cur = <<>> /\ bad = ""
 
 \* tracked exactly only where the integers stay small: runs whose mid-price path the harness imposes
 Tracked(cc) == cc.kind = "momentum" /\ cc.controlled /\ cc.decay4 \in {2, 4}
 
 Pow2(n) == IF n = 0 THEN 1 ELSE 2 ^ n
 
-\* scaled momentum after observing mid2 value m (k = number of earlier updates)
+\* scaled momentum after observing mid2 value m (k = number of earlier updates); m and lst are digit pairs (Big.tla).
+\* With decay 1 only the sign of P - p matters, which Big.tla's comparison gives for mid-prices of any size - in
+\* particular for the mid-price of a one-sided book, where the empty side shows the sentinel 0 / maximum price.
 NextU(cc, kk, lst, uu, m) ==
   IF kk = 0 THEN 0
-  ELSE IF cc.decay4 = 4 THEN (m - lst)                     \* decay 1:   M = P - p          (sign only)
-  ELSE uu + (m - lst) * Pow2(kk)                            \* decay 1/2: U_k = U_{k-1} + (mid2 - last) 2^k
+  ELSE IF cc.decay4 = 4 THEN (IF m = lst THEN 0 ELSE IF BigLe(lst, m) THEN 1 ELSE -1)     \* decay 1: M = P - p (sign only)
+  ELSE uu + (BigVal(m) - BigVal(lst)) * Pow2(kk)               \* decay 1/2: U_k = U_{k-1} + (mid2 - last) 2^k
 
 Sgn(x) == IF x > 0 THEN 1 ELSE IF x < 0 THEN -1 ELSE 0
 
@@ -52,13 +54,16 @@ Step ==
   /\ bad = ""
   /\ LET e == Rec[l] IN
      CASE e.op = "reset" ->
-            /\ c' = e /\ k' = 0 /\ last' = 0 /\ u' = 0 /\ cur' = <<>>
+            /\ c' = e /\ k' = 0 /\ last' = <<0, 0>> /\ u' = 0 /\ cur' = <<>>
             /\ prev' = IF e.reflected THEN cur ELSE <<>>
             /\ bad' = "" /\ l' = l + 1
        [] e.op = "update" ->
             \* k < 0: the mid-price left the range in which the signal is tracked exactly (rest of the run untracked)
-            LET tr == Tracked(c) /\ k >= 0 /\ BigSmall(e.mid2) /\ (c.decay4 = 4 \/ k <= 20)   \* 2^k scaling stays within 32 bits
-                m  == IF tr THEN BigVal(e.mid2) ELSE 0
+            \* (decay 1/2: the 2^k scaling must stay within 32 bits - at most 18 updates and mid-price moves of at most 500;
+            \*  a one-sided step moves the mid-price by far more and ends the exact tracking of such a run)
+            LET tr == Tracked(c) /\ k >= 0 /\
+                      (c.decay4 = 4 \/ (BigSmall(e.mid2) /\ k <= 18 /\ (k = 0 \/ (BigVal(e.mid2) - BigVal(last) <= 1000 /\ BigVal(last) - BigVal(e.mid2) <= 1000))))
+                m  == IF tr THEN e.mid2 ELSE <<0, 0>>
                 nu == IF tr THEN NextU(c, k, last, u, m) ELSE 0
                 sg == IF tr THEN Sgn(nu) ELSE 2
                 ok == Rel(c, e, sg)
